@@ -127,6 +127,18 @@ fn expect_matched<T>(input: &str, start: usize, far: Option<usize>, r: &ParseRes
     }
 }
 
+/// C04's sentence on any result: whatever a matcher returns as Ok stands on a character boundary inside the input and
+/// holds exactly the suffix that starts there (checked first, so that an unsafe result is reported as such and not as a
+/// wrong byte count)
+fn safe_result<T>(input: &str, r: &ParseResult<T>) -> R {
+    if let Ok(ok) = r {
+        let at = ok.state.cache_key();
+        if at > input.len() || !input.is_char_boundary(at) { return Err("cursor left off a char boundary"); }
+        if ok.state.s().as_ptr() != input[at..].as_ptr() || ok.state.s().len() != input.len() - at { return Err("remaining input is not the suffix at the new offset"); }
+    }
+    Ok(())
+}
+
 /// `failed(state, r, sp)`
 fn expect_failed<T>(start: usize, far: Option<usize>, r: &ParseResult<T>, sp: ParseErrorSpecifics) -> R {
     match r {
@@ -150,6 +162,7 @@ macro_rules! setup {
 pub fn check_parse_char(case: &Case) -> R {
     setup!(case, input, st);
     let r = parse_char(st, ());
+    safe_result(input, &r)?;
     match input[case.start..].chars().next() {
         None => expect_failed(case.start, case.far, &r, ParseErrorSpecifics::ExpectedAnyCharacter),
         Some(c) => {
@@ -169,6 +182,7 @@ pub fn ws_prefix_len(b: &[u8]) -> usize {
 pub fn check_parse_whitespace(case: &Case) -> R {
     setup!(case, input, st);
     let r = parse_Whitespace(st, ());
+    safe_result(input, &r)?;
     expect_matched(input, case.start, case.far, &r, ws_prefix_len(input[case.start..].as_bytes()))
 }
 
@@ -176,6 +190,7 @@ pub fn check_parse_string_literal(case: &Case) -> R {
     setup!(case, input, st);
     let lit = match case.literal() { Some(l) => leak(l), None => return Ok(()) };
     let r = parse_string_literal(st, lit);
+    safe_result(input, &r)?;
     if input[case.start..].as_bytes().starts_with(lit.as_bytes()) {
         expect_matched(input, case.start, case.far, &r, lit.len())?;
         if r.unwrap().result != lit { return Err("wrong literal returned"); }
@@ -189,6 +204,7 @@ pub fn check_parse_character_literal(case: &Case) -> R {
     setup!(case, input, st);
     let c = case.c;
     let r = parse_character_literal(st, c);
+    safe_result(input, &r)?;
     if input[case.start..].chars().next() == Some(c) {
         expect_matched(input, case.start, case.far, &r, c.len_utf8())?;
         if r.unwrap().result != c { return Err("wrong character returned"); }
@@ -202,6 +218,7 @@ pub fn check_parse_character_range(case: &Case) -> R {
     setup!(case, input, st);
     let (from, to) = (case.c, case.c2);
     let r = parse_character_range(st, from, to);
+    safe_result(input, &r)?;
     match input[case.start..].chars().next() {
         Some(x) if from <= x && x <= to => {
             expect_matched(input, case.start, case.far, &r, x.len_utf8())?;
@@ -219,6 +236,7 @@ pub fn check_parse_string_literal_insensitive(case: &Case) -> R {
     let lit = match case.literal() { Some(l) => leak(l), None => return Ok(()) };
     if !lit.is_ascii() { return Ok(()); }            // requires: the generator only passes ASCII literals
     let r = parse_string_literal_insensitive(st, lit);
+    safe_result(input, &r)?;
     let rest = input[case.start..].as_bytes();
     let m = lit.len() <= rest.len() && (0..lit.len()).all(|i| lower(rest[i]) == lit.as_bytes()[i]);
     if m {
@@ -235,6 +253,7 @@ pub fn check_parse_character_literal_insensitive(case: &Case) -> R {
     let c = case.c;
     if !c.is_ascii() { return Ok(()); }              // requires: the generator only passes ASCII literals
     let r = parse_character_literal_insensitive(st, c);
+    safe_result(input, &r)?;
     let rest = input[case.start..].as_bytes();
     if !rest.is_empty() && lower(rest[0]) == c as u8 {
         expect_matched(input, case.start, case.far, &r, 1)?;
@@ -248,6 +267,7 @@ pub fn check_parse_character_literal_insensitive(case: &Case) -> R {
 pub fn check_parse_end_of_input(case: &Case) -> R {
     setup!(case, input, st);
     let r = parse_end_of_input(st);
+    safe_result(input, &r)?;
     if case.start == input.len() { expect_matched(input, case.start, case.far, &r, 0) }
     else { expect_failed(case.start, case.far, &r, ParseErrorSpecifics::ExpectedEoi) }
 }
@@ -257,6 +277,7 @@ pub fn check_advance_safe(case: &Case) -> R {
     let n = case.n;
     if case.start + n > input.len() || !input.is_char_boundary(case.start + n) { return Ok(()); }   // requires
     let r: ParseResult<()> = Ok(ParseOk { result: (), state: st.advance_safe(n) });
+    safe_result(input, &r)?;
     expect_matched(input, case.start, case.far, &r, n)
 }
 
@@ -266,6 +287,7 @@ pub fn check_advance(case: &Case) -> R {
     if case.start + n > input.len() || !input.is_char_boundary(case.start + n) { return Ok(()); }   // requires
     // SAFETY: n is a char boundary of the remaining input (checked above)
     let r: ParseResult<()> = Ok(ParseOk { result: (), state: unsafe { st.advance(n) } });
+    safe_result(input, &r)?;
     expect_matched(input, case.start, case.far, &r, n)
 }
 
